@@ -64,14 +64,11 @@ theorem vmsas_ok (c : Cfg) (hc : CfgIsSpec c) (rb : ResetBlock) (n : Nat) :
     subst this
     exact ⟨_, by rw [hc.layout, hc.size, zeroPage_eq]; exact putVmsa_ap rb⟩
 
-/-- go: sev.LaunchDigest never panics -/
-theorem launchDigest_no_panic (H : Bytes → Bytes) (c : Cfg) (hc : CfgIsSpec c) (o : Opts) (fw : Bytes) (p : String) :
-    launchDigest H c o fw ≠ .panic p := by
-  unfold launchDigest
-  split
-  · simp
-  · rename_i hv
-    rcases SnpTotal.extractFromFirmware_tt fw with ⟨e, he⟩ | ⟨rb, secs, hp, _, _⟩
+/-- the measurement of sev.LaunchDigest never panics, whatever the product value -/
+theorem launchDigestBody_no_panic (H : Bytes → Bytes) (c : Cfg) (hc : CfgIsSpec c) (o : Opts) (hv : ¬ o.vcpus < 1)
+    (fw : Bytes) (p : String) : launchDigestBody H c o fw ≠ .panic p := by
+  unfold launchDigestBody
+  · rcases SnpTotal.extractFromFirmware_tt fw with ⟨e, he⟩ | ⟨rb, secs, hp, _, _⟩
     · rw [he]; simp
     · rw [hp]
       simp only
@@ -94,6 +91,26 @@ theorem launchDigest_no_panic (H : Bytes → Bytes) (c : Cfg) (hc : CfgIsSpec c)
             rw [SnpDigest.prepareVmsas_eq c.template hc.template o.vcpus (by omega) rb]
             simp only
             exact measureVmsa_no_panic H c _ _ (vmsas_ok c hc rb _) d1 p
+
+/-- go: sev.LaunchDigest never panics -/
+theorem launchDigest_no_panic (H : Bytes → Bytes) (c : Cfg) (hc : CfgIsSpec c) (o : Opts) (fw : Bytes) (p : String) :
+    launchDigest H c o fw ≠ .panic p := by
+  unfold launchDigest
+  split
+  · simp
+  · rename_i hv
+    split
+    · simp
+    · exact launchDigestBody_no_panic H c hc o hv fw p
+
+/-- … nor did the pre-repair variant -/
+theorem launchDigestOld_no_panic (H : Bytes → Bytes) (c : Cfg) (hc : CfgIsSpec c) (o : Opts) (fw : Bytes) (p : String) :
+    launchDigestOld H c o fw ≠ .panic p := by
+  unfold launchDigestOld
+  split
+  · simp
+  · rename_i hv
+    exact launchDigestBody_no_panic H c hc o hv fw p
 
 theorem generateLDs_no_panic (H : Bytes → Bytes) (c : Cfg) (hc : CfgIsSpec c) (product : Nat) (fw : Bytes)
     (counts : List Nat) : ∀ p : String, generateLDs H c product fw counts ≠ .panic p := by
@@ -152,11 +169,9 @@ def declaredPagesOf (fw : Bytes) : Nat :=
   | .ok (_, some secs) => declaredPages secs
   | _ => 0
 
-theorem launchDigestTicks_le (c : Cfg) (o : Opts) (fw : Bytes) :
-    launchDigestTicks c o fw ≤ fw.length / 2 + 4 + 2 * o.vcpus.toNat + declaredPagesOf fw := by
-  unfold launchDigestTicks declaredPagesOf
-  split
-  · omega
+theorem launchDigestBodyTicks_le (c : Cfg) (o : Opts) (fw : Bytes) :
+    launchDigestBodyTicks c o fw ≤ fw.length / 2 + 4 + 2 * o.vcpus.toNat + declaredPagesOf fw := by
+  unfold launchDigestBodyTicks declaredPagesOf
   · have h1 := SnpTotal.extractFromFirmwareTicks_le true true fw
     rcases SnpTotal.extractFromFirmware_tt fw with ⟨e, he⟩ | ⟨rb, secs, hp, hl, hr⟩
     · rw [he]; simp only; omega
@@ -178,6 +193,15 @@ theorem launchDigestTicks_le (c : Cfg) (o : Opts) (fw : Bytes) :
           | err e => simp only; omega
           | panic q => simp only; omega
           | ok d1 => simp only; omega
+
+theorem launchDigestTicks_le (c : Cfg) (o : Opts) (fw : Bytes) :
+    launchDigestTicks c o fw ≤ fw.length / 2 + 4 + 2 * o.vcpus.toNat + declaredPagesOf fw := by
+  unfold launchDigestTicks
+  split
+  · omega
+  · split
+    · omega
+    · exact launchDigestBodyTicks_le c o fw
 
 theorem launchDigestAlloc_le (c : Cfg) (o : Opts) (fw : Bytes) :
     launchDigestAlloc c o fw ≤ 64 * fw.length + 4368 * o.vcpus.toNat + 128 * declaredPagesOf fw + 8704 := by
